@@ -13,7 +13,8 @@ class E1Job:
 
     @property
     def name(self):
-        return "E1:%s:%s" % (self.harness, self.entry)
+        d = ("[" + ",".join(self.defines) + "]") if self.defines else ""
+        return "E1:%s:%s%s" % (self.harness, self.entry, d)
 
 
 def run_e1(build, job, workdir):
@@ -359,6 +360,8 @@ def c13_jobs(tier, seed):
     J.append(E1Job("wint", "h_wint_add", what="wrapped_interval + - neg: widths 1..4, all intervals, all members", unwind=20, timeout=900, args=wl))
     J.append(E1Job("wint", "h_wint_bitwise", what="wrapped_interval And Or Xor: widths 1..4", unwind=20, timeout=900, args=wl))
     J.append(E1Job("wint", "h_wint_lattice", what="wrapped_interval | || & <=: width 3", unwind=20, timeout=900, args=wl, defines=("FIXW=3",)))
+    for (fw, tk) in ((4, 1), (4, 2), (4, 3), (5, 2), (6, 3), (8, 4), (8, 7), (12, 8), (16, 8), (32, 16), (64, 32)):
+        J.append(E1Job("wint", "h_wint_trunc", what="wrapped_interval Trunc from width %d to %d: all intervals, all members" % (fw, tk), unwind=20, timeout=900, args=wl, defines=("FIXW=%d" % fw, "TK=%d" % tk)))
     if tier == "thorough":
         J.append(E1Job("wint", "h_wint_shift", what="wrapped_interval Shl LShr AShr: widths 1..4", unwind=20, timeout=1800, args=wl))
         J.append(E1Job("wint", "h_wint_lattice", what="wrapped_interval | || & <=: width 4", unwind=20, timeout=3000, args=wl, defines=("FIXW=4",)))
@@ -368,9 +371,9 @@ def c13_jobs(tier, seed):
 PROPS["C13"] = dict(
     jobs=c13_jobs, engine="E1",
     explanation="crab::wrapint (lib/wrapint.cpp) against an independent bit-vector reference for all widths 1..64 and all operands; wrapped_interval operations: every bit-vector result of members of the argument intervals lies in the result interval (membership = the real at() and an independent modular-distance predicate).",
-    bounds={"quick": "wrapint: all widths and all 64-bit operands for + - neg ++ -- comparisons & | ^ << lshr ashr sext zext keep_lower msb min/max and bignum conversions; * udiv urem at widths <= 16, sdiv srem <= 8; wrapped_interval + - neg And Or Xor at widths <= 4, | || & <= at width 3",
+    bounds={"quick": "wrapint: all widths and all 64-bit operands for + - neg ++ -- comparisons & | ^ << lshr ashr sext zext keep_lower msb min/max and bignum conversions; * udiv urem at widths <= 16, sdiv srem <= 8; wrapped_interval + - neg And Or Xor at widths <= 4, | || & <= at width 3, Trunc for 11 (source,target) width pairs up to 64->32",
             "thorough": "* udiv urem <= 24, sdiv srem <= 12; wrapped_interval shifts <= 4, lattice at width 4"},
-    outside=["wrapped_interval * / SDiv UDiv SRem URem Trunc ZExt SExt: CBMC gave no verdict within 900 s even at width 3 (vacuity witness not decided) - only the native random-vector validation runs on them (it found defect F15 in signed multiplication)",
+    outside=["wrapped_interval * / SDiv UDiv SRem URem ZExt SExt: CBMC gave no verdict within 900 s even at width 3 (vacuity witness not decided) - only the native random-vector validation runs on them (it found defect F15 in signed multiplication)",
              "wrapped_interval_domain (environment over wrapped intervals): not encoded", "string conversions (GMP/iostream code)", "wrapint(q_number)"],
     assumptions=E1_ASSUME + GMP_ASSUME,
     technique="bounded model checking of the compiled code (clang -> LLVM IR -> own translator -> C -> CBMC 6.11 with unwinding assertions), translation validated against a native build on every run")
